@@ -24,58 +24,63 @@ THEOREMS = [
     "BeyondVerif.C10.stream_eq_blocks",
     "BeyondVerif.C10.reuse_clean",
     "BeyondVerif.C10.stream_chronological",
+    "BeyondVerif.C10.stream_chronological_backward",
     "BeyondVerif.C10.label_prev_compare",
     "BeyondVerif.C10.label_light",
     "BeyondVerif.C10.guards_spec",
+    "BeyondVerif.C10.max_only_at_maximum",
+    "BeyondVerif.C10.visibility_stream_spec",
+    "BeyondVerif.C10.passes_spec",
+    "BeyondVerif.C10.stationKinds_spec",
     "BeyondVerif.Listen.bisect2_eq_wf",
     "BeyondVerif.Listen.bisectSteps_eq_wf",
-    "BeyondVerif.C10W.backward_not_chronological",
-    "BeyondVerif.C10W.backward_apside_label",
-    "BeyondVerif.C10W.backward_light_label",
+    "BeyondVerif.C10W.backward_chronological",
+    "BeyondVerif.C10W.apside_label_both_directions",
+    "BeyondVerif.C10W.light_label_backward",
     "BeyondVerif.C10W.exact_zero_at_sample_two_events",
 ]
-LEVEL_TEXT = ("Lean theorems over a model of Speaker.listen/_bisect/Listener.check/clear and the interleaving of iter, for an arbitrary watched "
-              "quantity f : Int -> Int, arbitrary guards, listener lists and sample sequences (dates in integer microseconds, timedelta/2 as "
-              "round-half-even): an event is emitted between two samples iff the listener's guard holds and the sign of f differs (exactly one per "
-              "listener), it lies in (t_k, t_k+1], f changes sign within 1 us of it, the stream of a forward iteration is chronological, listener "
-              "history is irrelevant; _bisect terminates (well-founded definition) in <= log2 passes. Watched quantity, guard and label of every listener "
-              "class are re-translated from the Python AST on each run and the label/guard theorems re-proved against them. Exact differential "
-              "correspondence: the REAL Speaker, listener classes, AnalyticalPropagator.iter and Ephem.iter driven through stub states with integer "
-              "polynomial components vs the compiled model (dates, listeners, labels, order).")
+LEVEL_TEXT = ("Lean theorems over a model of Speaker.listen/_bisect/Listener.check/clear, the interleaving of iter and the filter of "
+              "TopocentricFrame.visibility, for an arbitrary watched quantity f : Int -> Int, arbitrary guards, listener lists and sample sequences "
+              "(dates in integer microseconds, timedelta/2 as round-half-even): an event is emitted between two samples iff the listener's guard holds "
+              "and the sign of f differs (exactly one per listener), it lies in (t_k, t_k+1] (resp. [t_k+1, t_k) backward), f changes sign within 1 us of it, "
+              "the stream is ordered in the direction of the iteration (forward and backward), listener history is irrelevant; _bisect terminates "
+              "(well-founded definition) in <= log2 passes. Watched quantity, guard, label and event class of every listener class are re-translated from "
+              "the Python AST on each run and the label/guard/MAX/visibility theorems re-proved against them (labels match the crossing direction in time "
+              "in both directions of iteration). Exact differential correspondence: the REAL Speaker, listener classes, AnalyticalPropagator.iter, "
+              "Ephem.iter and TopocentricFrame.visibility driven through stub states with integer polynomial components vs the compiled model.")
 LEVEL_NOTE = ("agreement with closed-form Keplerian times, the conical shadow geometry and the zero elevation(-rate) at AOS/LOS/MAX is numerical: "
               "oracle sweep on the real API only; labels of the derivative-based listeners (Node, StationSignal, Terminator) are tied to the crossing "
-              "direction by the oracle only; for backward iterations the chronological and label clauses are false of the code (known findings, "
-              "kernel-checked witnesses); model hand-written, tied by exact correspondence and by the regenerated listener tables")
+              "direction by the oracle only; frame-less listeners (frame=None) inside visibility are outside the model (open finding "
+              "C10-visibility-prev-frame-mutated, oracle); model hand-written, tied by exact correspondence and by the regenerated listener tables")
 TECHNIQUE = ("Lean 4 proofs (functional induction on the bisection loop, induction over sample sequences and listener lists) about an executable "
              "model; listener tables translated from the source AST; exact model/implementation correspondence through a stub propagator; oracle on real orbits")
 TRUSTED = [
-    "harness/props/C10.py translate_listeners: Python AST of listeners.py (`__call__`, `check`, `info` of each listener class) -> Generated/ListenSrc.lean",
-    "correspondence harness: stub orbit/station/propagator/ephemeris classes (subclasses of the real AnalyticalPropagator, Ephem, LightListener, TerminatorListener) "
-    "whose spherical components are integer polynomials of the date; exact comparison of (date in us, listener index, label) streams",
+    "harness/props/C10.py translate_listeners: Python AST of listeners.py (`__call__`, `check`, `info`, `event` class and its bases of each listener class, `stations_listeners`) -> Generated/ListenSrc.lean",
+    "correspondence harness: stub orbit/station/propagator/ephemeris classes (subclasses of the real AnalyticalPropagator, Ephem, LightListener, TerminatorListener; the real "
+    "TopocentricFrame.visibility called on a stub station) whose spherical components are integer polynomials of the date; exact comparison of (date in us, listener index, label) streams",
     "CPython datetime: `timedelta / 2` rounds half to even on microseconds; `Date + timedelta` and `Date - Date` are exact on the microsecond grid within one day of the epoch used (checked by the correspondence itself)",
 ]
 ASSUMPTIONS = [
-    "the model Model/Listen.lean is hand-written; it is tied to listeners.py / base.py / ephem.py by the exact correspondence run and, for the per-class quantity/guard/label, by AST translation",
+    "the model Model/Listen.lean is hand-written; it is tied to listeners.py / base.py / ephem.py / stations.py by the exact correspondence run and, for the per-class quantity/guard/label/event class, by AST translation",
     "dates are integer microseconds: the float representation of Date (day + seconds) is assumed exact on that grid (true within the magnitudes exercised; the oracle checks real orbits with a 5 us window)",
-    "the watched quantity is a deterministic function of the date (true of every listener class; the product f(begin)*f(mid) is assumed not to underflow)",
+    "the watched quantity is a deterministic function of the date and of the listener's own frame (true of every listener class given an explicit frame; the product f(begin)*f(mid) is assumed not to underflow)",
     "the listener objects in one `listeners` list are distinct objects (the same object listed twice never fires at its second position)",
     "sign is three-valued as in numpy.sign: a crossing through an exact zero AT a sample date yields two events (one at the sample, one 1 us later) — witnessed in Witness/C10.lean, faithful to the code",
+    "the anomaly difference is modelled in fixed point (rad * 2^20) and kept inside (-pi, pi) by the stub, so `|diff - diff_prev| < pi` is an integer comparison with ceil(pi * 2^20)",
 ]
 NOT_COVERED = [
     "closed-form node / apsis / anomaly times, umbra/penumbra vs conical shadow geometry, zero elevation at AOS/LOS and zero elevation rate at MAX: numerical, oracle only (S)",
     "labels of NodeListener, StationSignalListener, TerminatorListener come from a derivative component independent of the watched quantity: agreement with the crossing direction is checked by the oracle only",
     "Date.range / DateRange (how the sample sequence is produced) belongs to C03/C08; the model takes the sample sequence as given",
     "NumericalPropagator: its internal interpolating Ephem is the Speaker; sharpness there is not re-evaluated by the oracle (order, soundness, completeness, labels are)",
-    "TopocentricFrame.visibility filtering is checked by the oracle against an explicit iteration, not modelled in Lean",
+    "listeners created with frame=None read the state in whatever frame the state object currently has; the model gives every listener its own fixed frame, so the in-place re-framing done by "
+    "TopocentricFrame.visibility (open finding C10-visibility-prev-frame-mutated) is seen by the oracle only",
 ]
-OPEN = [
-    "stream_chronological for backward iterations is FALSE of the current code (Witness C10W.backward_not_chronological, known finding C10-backward-event-order); proved instead: "
-    "event_between_backward (every event of a backward step lies in [t_k+1, t_k)) and listenU_times (events of one step ascending)",
-    "label_matches_direction in backward iterations is false of the code for Apside/StationMask/Light (known findings, witnesses); label_prev_compare / label_light state the direction relative to the iteration",
-]
+OPEN = []
 RULE = ("correspondence: random listener lists (1-6 listeners out of 14 kinds) x random sample sequences (1 us to 100 s spacing, regular / irregular / backward, roots of the "
         "polynomials on and off the samples) x 6 iteration modes (dates, range, Ephem dates/step/stored points) x listener history (fresh / reused / abandoned generator); "
-        "a case is non-trivial when at least one event is emitted; plus _bisect alone (result and number of propagations). "
+        "TopocentricFrame.visibility with 0-6 additional listeners given through listeners= and/or events= (True / list / single / none), with and without mask; "
+        "a case is non-trivial when at least one event is emitted (visibility: and one sample is below the horizon); plus _bisect alone (result and number of propagations). "
         "oracle: every clause as a predicate on real orbits (see samples); tolerances from the property text")
 
 US = None  # timedelta(microseconds=1), set by _setup
@@ -502,6 +507,16 @@ def gen_spec(rng, mode, kind):
     elif mode == "visibility":
         sp["listeners"], sp["station"] = [], gen_station(rng, o["kep"][2], mask=rng.random() < 0.5)
         sp["start_s"], sp["span_s"], sp["step_s"] = 0.0, P * rng.uniform(2, 4), round(rng.uniform(30, 120), 3)
+    elif mode == "geosync":
+        # inclined (eccentric) geosynchronous orbit seen from a station inside its ground-track loop: always in view,
+        # the elevation has maxima AND minima while in view
+        o["class"] = "geosync"
+        o["kep"] = [42164.17e3, rng.uniform(0.0, 0.25), math.radians(rng.uniform(20, 60)), o["kep"][3], math.radians(rng.uniform(0, 360)), o["kep"][5]]
+        P = kep_period(o)
+        sp["station"] = {"under_track": [rng.uniform(-12, 12), rng.uniform(-12, 12)], "latlonalt": None, "mask": None}
+        sp["listeners"] = [["signal"], ["max"], ["radvel", True]]
+        rng.shuffle(sp["listeners"])
+        sp["start_s"], sp["span_s"], sp["step_s"] = 0.0, P * rng.uniform(1.1, 2.2), round(rng.uniform(300, 900), 3)
     elif mode == "anomaly-large-step":
         # sampling steps between 1.2 and 1.9 rad of anomaly: still < 2 rad, so every genuine crossing is seen by the guard
         step = round(P * rng.uniform(1.2, 1.9) / (2 * math.pi), 3)
@@ -529,12 +544,19 @@ def run_spec(out, sp):
     mode = sp["mode"]
     orb = build_orbit(sp["orbit"])
     kind = sp["orbit"]["class"]
-    sta = build_station(sp["station"]) if sp.get("station") else None
+    st_spec = sp.get("station")
+    if st_spec and st_spec.get("under_track"):
+        # station near the mean sub-satellite point (offsets in degrees)
+        import numpy as np
+        g = orb.copy(frame="ITRF", form="spherical")
+        dlat, dlon = st_spec["under_track"]
+        st_spec = dict(st_spec, latlonalt=[max(-80.0, min(80.0, dlat)), math.degrees(float(g.theta)) + dlon, 100.0])
+    sta = build_station(st_spec) if st_spec else None
     Ls = build_listeners(sp["listeners"], sta)
     start = orb.date + timedelta(seconds=sp["start_s"])
     kw = dict(start=start, stop=timedelta(seconds=sp["span_s"]), step=timedelta(seconds=sp["step_s"]))
     desc = {"spec": sp, "epoch": str(orb.date), "listeners": [lname(L) for L in Ls], "step": sp["step_s"]}
-    if mode in ("analytical", "backward", "anomaly-large-step"):
+    if mode in ("analytical", "backward", "anomaly-large-step", "geosync"):
         fwd = mode != "backward"
         stream, blocks = run_stream(out, orb, "analytical", Ls, kw, desc, forward=fwd, propagate=orb.propagate)
         if fwd:
@@ -557,6 +579,12 @@ def run_spec(out, sp):
             if sig(stream) != sig(stream2):
                 out.fail("analytical:reuse", "a second iteration with the same listener objects gives a different stream", desc,
                          observed=len(stream2), expected=len(stream))
+            # ... and a third one over the same sample dates given explicitly (`dates=` form of iter)
+            stream3 = list(orb.iter(listeners=Ls, dates=[b[1].date for b in blocks]))
+            out.count(key=("reuse-dates", desc["epoch"]), kind="reuse-dates")
+            if sig(stream) != sig(stream3):
+                out.fail("analytical:reuse-dates", "iterating over the same dates (dates= form) with the same, already used, listener objects gives a different stream",
+                         desc, observed=sig(stream3)[:6], expected=sig(stream)[:6])
     elif mode == "ephem":
         eph = orb.ephem(start=orb.date, stop=timedelta(seconds=sp["span_s"] + 2 * sp["start_s"]), step=timedelta(seconds=sp["estep_s"]))
         stop = start + timedelta(seconds=sp["span_s"])
@@ -611,6 +639,31 @@ def check_visibility(out, orb, sta, kw, desc):
         if o.event.info == "MAX":
             if abs(o.phi_dot) > 1e-9 and not any(sph(o.date - k * US).phi_dot * o.phi_dot <= 0 for k in range(1, 6)):
                 out.fail("visibility:max-rate", "elevation rate at MAX is not zero", dict(desc, event=str(o.date)), observed=float(o.phi_dot))
+    # additional listeners of the caller, through `events=`: their events are yielded only above the horizon
+    def with_user(mk, fam, what, span):
+        kwu = dict(kw, stop=timedelta(seconds=min(kw["stop"].total_seconds(), span * period(orb))))
+        got_u = list(sta.visibility(orb, events=mk(), **kwu))
+        sta_cls = tuple(L.event for L in LS.stations_listeners(sta))
+        exp_u, n_user_ev = [], 0
+        for o in orb.iter(listeners=mk() + LS.stations_listeners(sta), **kwu):
+            s = o.copy(frame=sta, form="spherical")
+            n_user_ev += bool(o.event) and not isinstance(o.event, sta_cls)
+            if not s.phi < 0 or isinstance(o.event, sta_cls):
+                exp_u.append((o.date._mjd, o.event.info if o.event else None))
+        obs_u = [(o.date._mjd, o.event.info if o.event else None) for o in got_u]
+        out.count(key=(fam, desc["epoch"]), nontrivial=n_user_ev > 0, kind=fam)
+        below = [o for o in got_u if o.phi < 0 and not isinstance(o.event, sta_cls)]
+        if below or obs_u != exp_u:
+            extra = [x for x in obs_u if x not in exp_u]
+            out.fail(fam, what, dict(desc, below_horizon=[(str(o.date), o.event.info if o.event else None, float(o.phi)) for o in below[:4]],
+                                     unexpected=extra[:4]), observed=len(obs_u), expected=len(exp_u))
+    # (listeners that name their frame: independent of the frame the yielded points are left in)
+    with_user(lambda: [LS.NodeListener(frame="EME2000"), LS.ApsideListener(frame="EME2000"), LS.LightListener()],
+              "visibility:user-listeners",
+              "visibility with additional listeners: stream differs from (above-horizon points + their events + the station's own AOS/LOS/MAX events)", 1.5)
+    # (listeners with frame=None, "the frame is unchanged": they read the state in the orbit's own frame)
+    with_user(lambda: [LS.ApsideListener()], "visibility:prev-frame-mutated",
+              "visibility with an additional frame-less listener: spurious / missing events (the yielded point, still `listener.prev`, was re-framed in place)", 1.0)
     # a caller-owned listeners list, used twice
     mine = [LS.NodeListener()]
     kw2 = dict(kw, stop=timedelta(seconds=min(kw["stop"].total_seconds(), 1.2 * period(orb))))
@@ -629,7 +682,8 @@ def oracle(ctx, widened):
     big = widened or ctx.thorough
     kinds = ["leo", "molniya", "meo", "gto", "leo"]
     plan = [("analytical", 60 if big else 4, 0), ("backward", 20 if big else 2, 0), ("ephem", 30 if big else 3, 1),
-            ("numerical", 15 if big else 1, 0), ("visibility", 20 if big else 2, None), ("anomaly-large-step", 20 if big else 2, None)]
+            ("numerical", 15 if big else 1, 0), ("visibility", 20 if big else 2, None), ("anomaly-large-step", 20 if big else 2, None),
+            ("geosync", 15 if big else 2, None)]
     for mode, n, off in plan:
         for i in range(n):
             kind = "leo" if off is None else kinds[(i + off) % len(kinds)]
@@ -646,10 +700,17 @@ def replay(f):
         run_spec(out, inp["spec"])
         # only the recorded family counts as a reproduction
         out.failures = [x for x in out.failures if x["family"] == f["family"]]
+    elif isinstance(inp, dict) and inp.get("vis"):
+        env = _Env.get()
+        real = real_visibility(env, inp["samples"], [tuple(x) for x in inp["specs"]], tuple(inp["sta"]), inp["nl"], inp["how"],
+                               inp["has_mask"], inp["mode"], inp["history"])
+        m = core.Driver("C10").run([inp["line"]])[0]
+        if real != m:
+            out.fail(f["family"], f["what"], inp, observed=real, expected=m)
     elif isinstance(inp, dict) and "line" in inp:
         env = _Env.get()
         real = real_stream(env, inp["samples"], [tuple(x) for x in inp["specs"]], inp["mode"], inp["history"])
-        m = core.Driver().run([inp["line"]])[0]
+        m = core.Driver("C10").run([inp["line"]])[0]
         if real != m:
             out.fail(f["family"], f["what"], inp, observed=real, expected=m)
     return out
@@ -685,9 +746,27 @@ def _is_view(n):
             and isinstance(n.func.value, ast.Name) and n.func.value.id in ("orb", "orb2"))
 
 
+_LOCALS = {}   # local variables of the function being translated -> Lean term
+
+
 def _expr(n):
     """Python expression over the quantities of one listener -> Lean term (Int / Bool / String)"""
     import ast
+    if isinstance(n, ast.Name) and n.id in _LOCALS:
+        return _LOCALS[n.id]
+    src = ast.unparse(n)
+    if src == "self._backward(orb)":
+        return "bw"
+    if src == "self.prev is not None":
+        return "true"      # the model evaluates guards only when `prev` is set
+    if src == "np.pi":
+        return "piUnit"
+    if src == "self._diff(orb)":
+        return "fe"
+    if src == "self._diff(self.prev)":
+        return "fp"
+    if isinstance(n, ast.Call) and isinstance(n.func, ast.Name) and n.func.id == "abs" and len(n.args) == 1:
+        return f"(Int.natAbs ({_expr(n.args[0])}) : Int)"
     if isinstance(n, ast.Attribute) and n.attr in SPHERICAL and _is_view(n.value):
         return SPHERICAL[n.attr]
     if isinstance(n, ast.Attribute) and isinstance(n.value, ast.Name) and n.value.id == "self" and n.attr in ("elev", "sight"):
@@ -700,8 +779,6 @@ def _expr(n):
             return "fp"
     if isinstance(n, ast.Call) and isinstance(n.func, ast.Attribute) and n.func.attr == "get_mask" and ast.unparse(n) == "self.station.get_mask(orb.theta)":
         return "mask"
-    if isinstance(n, ast.Call) and isinstance(n.func, ast.Name) and n.func.id == "abs" and ast.unparse(n.args[0]) == "self._diff(orb)":
-        return "(Int.natAbs fe : Int)"
     if isinstance(n, ast.Constant) and isinstance(n.value, bool):
         return "true" if n.value else "false"
     if isinstance(n, ast.Constant) and isinstance(n.value, int):
@@ -716,6 +793,8 @@ def _expr(n):
             return f"decide ({_expr(n.left)} {op} {_expr(n.comparators[0])})"
         if isinstance(n.ops[0], ast.Eq) and ast.unparse(n) == "self.type == self.UMBRA":
             return "umbra"
+        if isinstance(n.ops[0], ast.NotEq):     # used between two booleans only
+            return f"({_expr(n.left)} != {_expr(n.comparators[0])})"
     if isinstance(n, ast.BoolOp):
         op = " || " if isinstance(n.op, ast.Or) else " && "
         return "(" + op.join(_expr(v) for v in n.values) + ")"
@@ -738,6 +817,12 @@ def _body(stmts, env):
     s, rest = stmts[0], stmts[1:]
     if isinstance(s, ast.Assign) and len(s.targets) == 1 and isinstance(s.targets[0], ast.Name) and s.targets[0].id in ("orb", "orb2") and _is_view(s.value):
         return _body(rest, env)   # a change of frame / form of the same state
+    if isinstance(s, ast.Assign) and len(s.targets) == 1 and isinstance(s.targets[0], ast.Name) and not isinstance(s.value, ast.Constant):
+        _LOCALS[s.targets[0].id] = _expr(s.value)   # a local boolean / number
+        try:
+            return _body(rest, env)
+        finally:
+            _LOCALS.pop(s.targets[0].id, None)
     if isinstance(s, ast.If):
         # branches that assign a local string then fall through
         def branch(b):
@@ -811,7 +896,8 @@ def translate_listeners(src):
            "Watched quantity (`__call__`), guard (the part of an overridden `check` before `super().check`) and label",
            "(`info`) of every listener class, translated from the Python AST.  Quantities: `phi phidot rdot` spherical",
            "components of the state in the listener's frame, `mask = station.get_mask(theta)`, `fe = self(orb)`,",
-           "`fp = self(self.prev)`; integer literals are multiplied by `unit` (the fixed-point scale of the quantity). -/",
+           "`fp = self(self.prev)`, `bw = self._backward(orb)`; integer literals are multiplied by `unit` (the fixed-point scale",
+           "of the quantity), `np.pi` is `piUnit` (the smallest integer above pi * unit). -/",
            "namespace BeyondVerif.Generated.ListenSrc", "set_option linter.unusedVariables false", ""]
     for cls, pre, has_f in CLASSES:
         evname = ast.unparse(class_attr(cls, "event"))
@@ -828,15 +914,45 @@ def translate_listeners(src):
         owner_is_base = chk is method("Listener", "check")
         g = "true" if owner_is_base else _body(chk.body, env)
         out.append(f"/-- `{cls}.check`: condition under which `Listener.check` is consulted -/")
-        out.append(f"def {pre}Guard (unit : Int) (sight : Bool) (phi phidot rdot fe : Int) : Bool := {g}")
+        out.append(f"def {pre}Guard (unit piUnit : Int) (sight : Bool) (phi phidot rdot fe fp : Int) : Bool := {g}")
         lab = _body(method(cls, "info").body, env)
         out.append(f"/-- `{cls}.info(orb).info` -/")
-        out.append(f"def {pre}Label (unit : Int) (umbra : Bool) (phi phidot rdot fe fp : Int) : String := {lab}")
+        out.append(f"def {pre}Label (unit : Int) (umbra bw : Bool) (phi phidot rdot fe fp : Int) : String := {lab}")
         out.append("")
+    # event class of every listener class with its base classes (for `isinstance(point.event, event_classes)` in
+    # TopocentricFrame.visibility), and the composition of `stations_listeners`
+    def ancestors(name):
+        res = [name]
+        for b in classes[name].bases:
+            if isinstance(b, ast.Name) and b.id in classes:
+                res += ancestors(b.id)
+        return res
+    rows = []
+    for cls, pre, _ in CLASSES + [("AnomalyListener", "anomaly", False)]:
+        rows.append(f'("{pre}", [' + ", ".join(f'"{a}"' for a in ancestors(ast.unparse(class_attr(cls, "event")))) + "])")
+    out.append("/-- `Listener.event` of every listener class, followed by the base classes of that event class -/")
+    out.append("def eventAncestors : List (String × List String) := [" + ", ".join(rows) + "]")
+    fn = next(n for n in tree.body if isinstance(n, ast.FunctionDef) and n.name == "stations_listeners")
+    pref = {c: p_ for c, p_, _ in CLASSES}
+    always, ifmask = [], []
+    for n in ast.walk(fn):
+        if isinstance(n, ast.For):
+            for st in n.body:
+                if isinstance(st, ast.Expr) and ast.unparse(st.value).startswith("listeners.append("):
+                    always.append(pref[st.value.args[0].func.id])
+                elif isinstance(st, ast.If) and ast.unparse(st.test) == "sta.mask is not None":
+                    for st2 in st.body:
+                        ifmask.append(pref[st2.value.args[0].func.id])
+                else:
+                    raise Untranslatable(ast.unparse(st))
+    out.append("/-- `stations_listeners(sta)`: listener classes always attached, and those attached when the station has a mask -/")
+    out.append("def stationListeners : List String := [" + ", ".join(f'"{x}"' for x in always) + "]")
+    out.append("def stationListenersIfMask : List String := [" + ", ".join(f'"{x}"' for x in ifmask) + "]")
+    out.append("")
     # AnomalyListener: guard from the AST, label prefixes from the ANOMALIES table (evaluated on the live class)
     env = {"__events__": {}}
     out.append("/-- `AnomalyListener.check` -/")
-    out.append(f"def anomalyGuard (unit : Int) (sight : Bool) (phi phidot rdot fe : Int) : Bool := {_body(method('AnomalyListener', 'check').body, env)}")
+    out.append(f"def anomalyGuard (unit piUnit : Int) (sight : Bool) (phi phidot rdot fe fp : Int) : Bool := {_body(method('AnomalyListener', 'check').body, env)}")
     return out
 
 
@@ -925,8 +1041,6 @@ class _Env:
             def _anom(self):
                 x = evalpoly(self.ch[0], self.t)
                 x = max(-3 * ANOM_UNIT, min(3 * ANOM_UNIT, x))
-                if abs(x) == 2 * ANOM_UNIT:
-                    env.ambiguous = True     # |diff| < 2 is decided by float rounding of (x + π) % 2π − π
                 return x / ANOM_UNIT
         for a in ("ν", "M", "E", "u"):
             setattr(View, a, property(View._anom))
@@ -935,6 +1049,12 @@ class _Env:
             def __init__(self, date, chans):
                 self.date, self.chans, self.event = date, chans, None
                 self.t = us(date)
+                self.frame = self.form = None
+
+            @property
+            def phi(self):
+                # what TopocentricFrame.visibility reads after `point.frame = station; point.form = "spherical"`
+                return evalpoly(self.chans[self.frame][0], self.t)
 
             def copy(self, *, frame=None, form=None, same=None):
                 if frame is None and form is None:
@@ -945,10 +1065,10 @@ class _Env:
 
         class Key:
             """stands for a frame or a station"""
-            mask = True
 
-            def __init__(self, chans_entry):
+            def __init__(self, chans_entry, mask=True):
                 self.entry = chans_entry
+                self.mask = mask        # `stations_listeners` only looks at `sta.mask is not None`
 
             def get_mask(self, azim):
                 return evalpoly(self.entry[3], azim)
@@ -1150,10 +1270,114 @@ def real_stream(env, ts, specs, mode, history):
     return env.signature(list(run(ts, dates)), Ls)
 
 
+def gen_vis_case(rng):
+    """TopocentricFrame.visibility through the stubs: station components, the caller's listeners (via listeners= and/or
+    events=), events flag, mask or not"""
+    ts, skind, specs, _, history = gen_case(rng)
+    lo, hi = min(ts), max(ts)
+    sta = (gen_poly(rng, lo, hi, ts), gen_poly(rng, lo, hi, ts, 2), gen_poly(rng, lo, hi, ts, 2), gen_poly(rng, lo, hi, ts, 1), 0)
+    r = rng.random()
+    if r < 0.15:
+        specs = []
+    nl = rng.randint(0, len(specs))        # the first nl through listeners=, the others through events=
+    how = rng.choice(["true", "list", "list", "single", "none"])
+    if how == "list" and nl == len(specs):
+        how = "true"
+    if how == "single":
+        if not specs:
+            how = "true"
+        else:
+            nl = len(specs) - 1
+    if how in ("true", "none"):
+        nl = len(specs)
+    has_mask = rng.random() < 0.5
+    mode = rng.choice(["dates", "dates", "range"])
+    if mode == "range" and len({ts[i + 1] - ts[i] for i in range(len(ts) - 1)}) != 1:
+        mode = "dates"
+    return ts, skind, specs, sta, nl, how, has_mask, mode, history
+
+
+def vis_line(ts, specs, sta, how, has_mask):
+    p = lambda cs: ",".join(str(c) for c in cs)
+    return (f"c10v {0 if how == 'none' else 1} {1 if has_mask else 0} {p(ts)} {p(sta[0])} {p(sta[1])} {p(sta[2])} {p(sta[3])} "
+            + " ".join(f"{k} {p(A)} {p(B)} {p(C)} {p(D)} {E}" for k, A, B, C, D, E in specs)).rstrip()
+
+
+def real_visibility(env, ts, specs, sta, nl, how, has_mask, mode, history):
+    """the REAL TopocentricFrame.visibility (called unbound on a stub station) over the stub propagator"""
+    from datetime import timedelta
+    from beyond.frames.stations import TopocentricFrame
+    LS = env.LS
+    Ls, chans = env.build(specs)
+    station = env.Key(sta, mask=True if has_mask else None)
+    chans[station] = sta
+    src = env.StubProp(chans)
+    dates = [env.date(t) for t in ts]
+    mine = list(Ls[:nl])
+    n_before = len(mine)
+
+    def run():
+        kw = {}
+        if mode == "dates":
+            kw["dates"] = list(dates)
+        else:
+            kw.update(start=dates[0], stop=dates[-1], step=timedelta(microseconds=ts[1] - ts[0]))
+        if how == "true":
+            kw["events"] = True
+        elif how == "list":
+            kw["events"] = list(Ls[nl:])
+        elif how == "single":
+            kw["events"] = Ls[nl]
+        return TopocentricFrame.visibility(station, src, listeners=mine, **kw)
+    if history == "reuse":
+        list(run())
+    elif history == "abandoned":
+        g = run()
+        for _ in range(3):
+            next(g, None)
+    stream = list(run())
+    if len(mine) != n_before:
+        return "caller's listeners list was modified"
+    merged = list(Ls)
+    sig = []
+    for o in stream:
+        if o.event:
+            L = o.event.listener
+            idx = next((i for i, x in enumerate(merged) if x is L), None)
+            if idx is None:   # one of the station's own listeners, created inside visibility
+                order = [LS.StationSignalListener, LS.StationMaxListener, LS.StationMaskListener]
+                idx = len(merged) + next(i for i, c in enumerate(order) if type(L) is c)
+                if L.station is not station:
+                    return "event of an unknown listener"
+            sig.append(f"{env.us(o.date)}/{idx}/{o.event.info.split(' = ')[0]}")
+        else:
+            sig.append(f"{env.us(o.date)}/-")
+    return ";".join(sig)
+
+
 def correspondence(ctx):
     out = Outcome()
     env = _Env.get()
     rng = ctx.rng
+    # ---- TopocentricFrame.visibility
+    vcases = [gen_vis_case(rng) for _ in range(ctx.n(1200, 40000))]
+    vlines = [vis_line(c[0], c[2], c[3], c[5], c[6]) for c in vcases]
+    vmodel = core.Driver("C10").run(vlines)
+    for c, line, m in zip(vcases, vlines, vmodel):
+        ts, skind, specs, sta, nl, how, has_mask, mode, history = c
+        try:
+            real = real_visibility(env, *c[:1], *c[2:])
+        except Exception as e:
+            real = f"raised {type(e).__name__}: {e}"
+        nev = sum(1 for it in m.split(";") if it and not it.endswith("/-"))
+        below = sum(1 for t in ts if evalpoly(sta[0], t) < 0)
+        out.count(key=("vis", tuple(ts), tuple((s[0], tuple(s[1])) for s in specs), tuple(sta[0]), how, has_mask, mode, history),
+                  nontrivial=nev > 0 and below > 0, vis_events=how, vis_mode=mode, vis_user=min(len(specs), 4))
+        if real != m:
+            out.fail("visibility-stream", "stream of TopocentricFrame.visibility differs between the model and the real method",
+                     {"vis": True, "samples": ts, "specs": specs, "sta": sta, "nl": nl, "how": how, "has_mask": has_mask, "mode": mode,
+                      "history": history, "line": line}, observed=real, expected=m)
+        out.sample({"line": line[:200], "reply": m[:200]}, limit=1)
     cases = []
     for _ in range(ctx.n(2500, 100000)):
         cases.append(gen_case(rng))
@@ -1166,7 +1390,7 @@ def correspondence(ctx):
         P = gen_poly(rng, min(b, b + d), max(b, b + d), [b, b + d])
         bis.append((b, b + d, P))
         lines.append(f"c10b {b} {b + d} " + ",".join(map(str, P)))
-    model = core.Driver().run(lines)
+    model = core.Driver("C10").run(lines)
     for (ts, skind, specs, mode, history), m in zip(cases, model[:len(cases)]):
         env.ambiguous = False
         try:
